@@ -38,7 +38,7 @@ static uint64_t fingerprint(const OpResult& o, std::string* text = nullptr)
 
 static PlanOp gen_any_op(Rng& rng, bool thorough)
 {
-    std::vector<std::string> pk = keys_for({ "G1", "G2", "G3", "G4", "G5", "G6", "G7", "G8", "G9", "G10", "G11", "G12", "G13", "G14", "G15", "G16", "G17", "G18", "G19", "G20", "G21", "G22", "G23", "G24", "G25", "T1" });
+    std::vector<std::string> pk = keys_for({ "G1", "G2", "G3", "G4", "G5", "G6", "G7", "G8", "G9", "G10", "G11", "G12", "G13", "G14", "G15", "G16", "G17", "G18", "G19", "G20", "G21", "G22", "G23", "G24", "G25", "G27", "T1" });
     std::vector<std::string> rk = regex_keys();
     uint64_t k = rng.below(100);
     PlanOp op;
@@ -98,7 +98,7 @@ static Plan gen_c15_cold(uint64_t seed, int64_t index)
     Plan p;
     p.seed = seed; p.index = index; p.property = "C15"; p.mode = "cold_start";
     p.interleaved_first = true;
-    std::vector<std::string> pk = keys_for({ "G1", "G2", "G3", "G4", "G5", "G6", "G7", "G8", "G9", "G10", "G11", "G12", "G13", "G14", "G15", "G16", "G17", "G18", "G19", "G20", "G21", "G22", "G23", "G24", "G25", "T1" });
+    std::vector<std::string> pk = keys_for({ "G1", "G2", "G3", "G4", "G5", "G6", "G7", "G8", "G9", "G10", "G11", "G12", "G13", "G14", "G15", "G16", "G17", "G18", "G19", "G20", "G21", "G22", "G23", "G24", "G25", "G27", "T1" });
     std::vector<PlanOp> ops;
     for (int k = 0; k < 5; ++k)
     {
@@ -138,6 +138,7 @@ static Plan gen_c15(uint64_t seed, int64_t index, bool thorough)
     else { p.mode = "dense"; density = rng.range(26, 60); }
     p.interleaved_first = rng.chance(1, 3);   // first calls (lazy initialisation) happen under interleaving
     p.share_streams = rng.chance(1, 2);       // each task logs all its calls to ONE long-lived std::ostream object
+    p.share_options = rng.chance(1, 2);       // each task passes ONE long-lived parse_options object to all its calls
     bool same_parser = rng.chance(1, 2);      // bias: all tasks hammer one parser object
     std::string shared_key;
     for (int t = 0; t < nt; ++t)
@@ -269,6 +270,7 @@ static std::vector<Violation> case_c15(const Plan& p, CaseCtx& cx)
         cx.st->add("mode." + p.mode);
         cx.st->add("tasks", int64_t(p.tasks.size()));
         if (p.share_streams) cx.st->add("probe.calls_sharing_one_stream_object");
+        if (p.share_options) cx.st->add("probe.calls_sharing_one_options_object");
     }
 
     solo(after, ta);
